@@ -19,7 +19,7 @@ CHECKS = {
         technique="runtime monitor + crash injection at every target request prefix, fresh tool instance restarted per distinct target state, logs of all runs checked for loss/duplication/wrong DB",
         text="For each base run every prefix of the requests the target executed is a crash point (exhaustive per observed request sequence, grouped by "
              "resulting target state); a fresh RedisOutput performs the real start-up bookkeeping + StartPoint + Send from the returned offset; "
-             "second/third crashes on a PRNG subset. Oracles: resume position absorbed, no skipped write, right DB, exactly-once in transactional mode.",
+             "second/third crashes on a PRNG subset. Oracles: resume position absorbed, no skipped write, right DB, exactly-once in transactional mode. Also: orderly stops (context cancellation) while the source is silent at a PRNG-chosen command boundary, same-instance re-runs after a lost target connection (reply lost, effect not), same-instance second snapshot; a third of the cases switch databases inside transactions, a third blacklist one source database.",
         design="DESIGN.md §3 C02", note=TRUST + "; crash = prefix of executed requests (tool and target die together or in-flight requests are lost)"),
     "C03": dict(level="exploration", engine="fullsync+rdbx",
         technique="runtime oracle: snapshots built by an independent RDB codec are replayed by the real Send into a Redis double; final keyspace, expiries and every RESTORE payload compared with the dataset; worker processes with hang/memory guards",
@@ -31,12 +31,12 @@ CHECKS = {
         technique="fault injection + runtime monitor: every truncation and every single-byte alteration of valid checksummed snapshots through the real parser/expansion, sampled through Send; target error at every write; cancellation at every target request and right after the last byte is parsed",
         text="Exhaustive per snapshot for the byte sweeps and per observed request sequence for error/cancel points (not over schedules). Oracle: error reported, "
              "no resume position at the snapshot offset, call returns, process survives (worker processes; crash/hang/memory growth is a violation after two isolated confirmations); "
-             "a replay reported complete must have applied every key.",
+             "a replay reported complete must have applied every key; after every Send the SAME instance is asked for its start point again (in-process re-run), bisync scenarios draw sync/pipeline/parallel and may be primed with an earlier completed snapshot.",
         design="DESIGN.md §3 C04", note="CRC64 detects all single-byte alterations; cancellation is delivered at logical instants of the double; " + TRUST),
     "C08": dict(level="fault_enumeration", engine="prf+child",
         technique="crash-image sampling: a live writer child process is SIGSTOPped at aimed/PRNG instants, its directory copied and reopened by a fresh StoreChannel; served bytes compared with PRF(offset); closed segments altered and reopened with verifyCrc",
         text="Hundreds (quick) / thousands (thorough) of frozen directory images over all write phases incl. kill-and-restart chains and mid-removal images, classified by "
-             "structural signature; instants are sampled, not exhaustive; required phases enforced by count.",
+             "structural signature; instants are sampled, not exhaustive; required phases enforced by count. Hostile chains: writes refused through RLIMIT_FSIZE in the child (first chunk / mid-snapshot / last chunk / log segment, partial writes), Close at the last chunk; the child sweeps its own live cache after a refused log write and after restart + collector with a lagging reader (valid offsets readable, PRF bytes, never beyond Right(), stall by logical quiescence).",
         design="DESIGN.md §3 C08", note="a stopped process performs no syscalls, so the copy is an exact kill-point image of the page cache; fsync ordering of a power loss is not modelled"),
     "C20": dict(level="exploration", engine="fullsync+rdbx",
         technique="runtime oracle as C03 with a pre-populated target double under each key-exists policy; existing keys compared bit-for-bit before/after and against the request log",
@@ -47,7 +47,7 @@ CHECKS = {
         technique="runtime monitor over the real RedisInput/cache/RedisOutput pipeline against a source double implementing Redis' PSYNC admission rule; target log (history-tagged ids), PSYNC request log and cache ranges checked after each reconnect",
         text="Enumerated product of source mutation (same id, failover with switch offset, new id, trimmed backlog) x stored resume position class x cache contents x disk/memory cache "
              "x restart/in-loop reconnect; states the tool cannot reach naturally are constructed and marked. Oracle: continuation exactly from the stored position on the current history, "
-             "or a complete snapshot followed by the stream from its offset; offset convention and CONTINUE/FULLRESYNC answers checked.",
+             "or a complete snapshot followed by the stream from its offset; offset convention and CONTINUE/FULLRESYNC answers checked. Faults: source cuts the replica connection inside the snapshot or the stream; target answers the bookkeeping writes of a reconnect with errors (reset after FULLRESYNC, run-id re-key) until a logical event.",
         design="DESIGN.md §3 C06", note="internal/fakeredis role_source transcribes masterTryPartialResynchronization; " + TRUST),
     "C17": dict(level="fault_enumeration", engine="fakeredis+hooks",
         technique="crash sweep over every request prefix of each bookkeeping maintenance operation (real start-up bookkeeping and GC body through build-tag hooks); next start with the new configuration must find a position >= the one before, in the same DB",
@@ -71,7 +71,7 @@ CHECKS = {
     "C14": dict(level="fault_enumeration", engine="bisweep",
         technique="request-prefix crash sweep + clean-stop schedule of bisync incremental replay (all three modes) with restart chains through the real start-up bookkeeping; oracles over unit table, frontier/latest/journal keys and StartPoint of successive starts; exhaustive RebuildBisyncFrontier subset check",
         text="Every request prefix incl. recovery/migration requests (grouped by state), 1-3 idle restarts + one with traffic, mode switches, cancellation at logical instants under load; "
-             "standalone target (a gap-skipping coordinator mutant needs the cluster target and is not caught).",
+             "standalone target for the prefix sweep; parallel mode on a 3-node cluster double (out-of-order acknowledgement across lanes incl. gap-closes-last orders + stop, failed unit + in-process restart), sync mode on the cluster with a same-instance second snapshot; one-request-fault sweeps (error reply / connection closed instead of a reply) over every request of a frontier flush and of start-up recovery; clause: every stored frontier (seq, offset) is the pair of one committed unit.",
         design="DESIGN.md §3 C14", note=TRUST),
     "C16": dict(level="exploration", engine="grpc+channels",
         technique="runtime monitor: real ReplicaLeader behind a real gRPC server (stream wrapped to cut after message k) and real ReplicaFollower over both cache backends; follower cache read back and compared with PRF(run id, offset) and with the leader",
